@@ -457,8 +457,68 @@ def _helper_cases(src: str, mode="exec"):
             cases.append((req, exp, src))
             return res
 
+    def _enc_val(v):
+        if isinstance(v, bytes):
+            return enc_str("".join(chr(b) for b in v)), "1"
+        return enc_str(v), "0"
+
     class P(XonshParser):
         _span_seen = set()
+
+        def concatenate_strings(self, parts):
+            req = None
+            try:
+                ids = {}
+                fs = []
+                first = self._strip_path_prefix(parts[0]) or parts[0]
+                for i, p_ in enumerate(parts):
+                    if i == 0:
+                        p_ = first
+                    if isinstance(p_, _ast.JoinedStr):
+                        vs = []
+                        for v in p_.values:
+                            if isinstance(v, _ast.Constant):
+                                val, b = _enc_val(v.value)
+                                vs.append(f"C.{val}.{b}.{1 if getattr(v, 'kind', None) == 'u' else 0}.{v.lineno}:{v.col_offset}.{v.end_lineno}:{v.end_col_offset}")
+                            else:
+                                vs.append(f"F.{ids.setdefault(id(v), len(ids))}")
+                        fs.append(f"J|{';'.join(vs) or '-'}|{p_.lineno}:{p_.col_offset}|{p_.end_lineno}:{p_.end_col_offset}")
+                    else:
+                        value = _ast.literal_eval(p_.string)
+                        val, b = _enc_val(value)
+                        fs.append(f"T|{val}|{b}|{1 if p_.string.startswith('u') else 0}|{p_.start[0]}:{p_.start[1]}|{p_.end[0]}:{p_.end[1]}")
+                req = "concat " + " ".join(fs)
+                if any((" " in f) for f in fs) or any(ord(ch) > 0x10FFFF for ch in ""):
+                    req = None
+            except Exception:  # noqa: BLE001
+                req = None
+            try:
+                res = super().concatenate_strings(parts)
+            except SyntaxError as e:
+                if req is not None and "cannot mix bytes" in str(e.msg):
+                    cases.append((req, "mixerr", src))
+                raise
+            if req is not None:
+                try:
+                    node = res
+                    if isinstance(node, _ast.Call):
+                        node = node.args[0]
+                    if isinstance(node, _ast.Constant):
+                        val, b = _enc_val(node.value)
+                        exp = f"C|{val}|{b}|{1 if getattr(node, 'kind', None) == 'u' else 0}|{node.lineno}:{node.col_offset}|{node.end_lineno}:{node.end_col_offset}"
+                    else:
+                        vs = []
+                        for v in node.values:
+                            if isinstance(v, _ast.Constant):
+                                val, b = _enc_val(v.value)
+                                vs.append(f"C.{val}.{b}.{1 if getattr(v, 'kind', None) == 'u' else 0}.{v.lineno}:{v.col_offset}.{v.end_lineno}:{v.end_col_offset}")
+                            else:
+                                vs.append(f"F.{ids.setdefault(id(v), len(ids))}")
+                        exp = f"J|{';'.join(vs) or '-'}|{node.lineno}:{node.col_offset}|{node.end_lineno}:{node.end_col_offset}"
+                    cases.append((req, exp, src))
+                except Exception:  # noqa: BLE001
+                    pass
+            return res
 
         def span(self, lnum, col):
             res = super().span(lnum, col)
@@ -546,7 +606,7 @@ def helper_cases(srcs):
     return out
 
 
-def run_helper_correspondence(rep, cases, kinds=("macro", "withmacro", "makeargs", "builderr", "span")):
+def run_helper_correspondence(rep, cases, kinds=("macro", "withmacro", "makeargs", "builderr", "span", "concat")):
     by = {}
     for c in cases:
         k = c[0].split(" ", 1)[0]
@@ -554,7 +614,7 @@ def run_helper_correspondence(rep, cases, kinds=("macro", "withmacro", "makeargs
             by.setdefault(k, []).append(c)
     bad_all = []
     for k, cs in sorted(by.items()):
-        bad_all += run_correspondence(rep, {"macro": "consume_macro_params", "withmacro": "consume_with_macro_params", "makeargs": "make_arguments", "builderr": "_build_syntax_error", "span": "span"}[k], cs)
+        bad_all += run_correspondence(rep, {"macro": "consume_macro_params", "withmacro": "consume_with_macro_params", "makeargs": "make_arguments", "builderr": "_build_syntax_error", "span": "span", "concat": "concatenate_strings"}[k], cs)
     return bad_all
 
 
